@@ -191,6 +191,9 @@ def shard(i: int, n: int, tier: str, seed: int) -> Result:
                             res.count('orig_raises')
                             continue
                         r = genrun.call(g, [x], timeout=5.0)
+                        if r[0] == 'timeout':
+                            res.count('lowered_timeout')     # watchdog: inconclusive for this operand, never a verdict
+                            continue
                         res.evaluations += 1
                         if r[0] == 'ok' and r[1] == ref[1]:
                             res.nontrivial += diff
@@ -279,6 +282,9 @@ def _arith(res, rng, work, i, n, quick):
                     if ref[0] != 'ok':
                         continue
                     r = genrun.call(g, list(t), timeout=5.0)
+                    if r[0] == 'timeout':
+                        res.count('lowered_timeout')
+                        continue
                     res.evaluations += 1
                     if r[0] == 'ok' and r[1] == ref[1]:
                         res.nontrivial += diff
